@@ -556,6 +556,11 @@ func run(r *simkit.Run) {
 			} else if c.Bool(pLimit, "limit") {
 				o.Mut = limMuts[c.Intn(len(limMuts), "which-limit")]
 			}
+			if w.Net.BIP34 > 100000 && c.Bool(250, "bip30-bias") {
+				// a network on which coinbases can legitimately repeat:
+				// re-created (and later re-spent) outpoints are the point
+				o.Mut = []string{"bip30-recreate-fully-spent-coinbase", "bip30-recreate-fully-spent-coinbase", "bip30-overwrite-unspent-coinbase"}[c.Intn(3, "bip30-which")]
+			}
 			if cfg.Prune != 0 && (strings.HasPrefix(o.Mut, "block-base-size") || strings.HasPrefix(o.Mut, "sigop")) {
 				// blocks of a megabyte do not fit the small emulated block files
 				o.Mut = ""
@@ -790,3 +795,4 @@ func (s *Sim) deliverWithClock(b *MBlock) {
 	}
 	s.Deliver(b)
 }
+
